@@ -9,7 +9,7 @@ for f in ('patch.diff', 'demo_test.go', 'README.txt'):
     if os.path.exists(os.path.join(src, f)):
         shutil.copy(os.path.join(src, f), os.path.join(d, f))
 json.dump({"property": pid, "breaks": f"Property {pid}: {titles[pid]}", "needs_to_manifest": needs,
-  "author": "independent sub-agent given only the property text and a scratch worktree (second round)",
+  "author": "independent sub-agent given only the property text and a scratch worktree " + "(" + os.environ.get("SEED_ROUND","fourth") + " round)",
   "demo": {"file": "demo_test.go", "package_dir": pkg, "run": f"copy to <worktree>/{pkg}/zz_demo_test.go; go test -vet=off -count=1 -run Demo ./{pkg}"},
   "confirmed_by_me": "tools/try_seed.sh in a scratch worktree of /repo HEAD: demo passes on the clean tree, fails with the patch; whole suite (go test ./...) passes with the patch",
   "checks_run": "SEED_IN_WORKTREE=1 tools/try_seed.sh: the patch is applied in the scratch worktree and `gosym check <id> --tier quick` is pointed at it (GOSYM_REPO), because other runs were reading /repo at the time",
